@@ -61,6 +61,7 @@ def handle (line : String) : String :=
       | "karate" => run handleKarate
       | "gnp" => run handleGnp
       | "gnpstat" => "m.none=0"
+      | "gnpdet" => "m.none=0"
       | "xml" => run handleXml
       | "par" => "m.build=0"
       | "xmlbig" => "m.build=0"
